@@ -68,7 +68,45 @@ func buildDecInputs(g *gen.G, nValid, mutPer int, kinds []string) []decInput {
 		}
 		_ = i
 	}
-	return append(append(append(inputs, skipFamily()...), tailFamily()...), enumFamily()...)
+	// big well-formed messages (a value or a run of items beyond 4 KiB / 8 KiB): valid inputs with their values known
+	for i, c := range bigCases() {
+		if i%3 == 1 {
+			continue
+		}
+		out, written, _ := realEncode(c.top)
+		if strings.HasPrefix(out, "ok") {
+			inputs = append(inputs, decInput{typ: c.typ, data: append([]byte(nil), written...), origin: "valid", value: render.Struct(c.top), top: c.top})
+		}
+	}
+	return append(append(append(append(inputs, skipFamily()...), tailFamily()...), enumFamily()...), cutFamily()...)
+}
+
+// cutFamily: every structure of a few well-formed messages ended early - its children from the j-th on removed, for every j,
+// with the lengths of the structure and of everything around it corrected, so that the result is a perfectly nested TTLV tree in
+// which only trailing items (usually required ones) are missing; and the same structures with a declared length of 0. A
+// decoder that stops looking once a structure's bytes are used up accepts these; random deletion rarely hits the tail exactly.
+func cutFamily() []decInput {
+	var out []decInput
+	for _, in := range enumFamily() {
+		if in.origin != "enum-valid" {
+			continue
+		}
+		for _, st := range mut.All(mut.Parse(in.data)) {
+			if st.Typ != 1 {
+				continue
+			}
+			for j := range st.Kids {
+				from, to := st.Kids[j].Off, st.Off+8+int(st.Len)
+				b := append(append([]byte(nil), in.data[:from]...), in.data[to:]...)
+				for p := st; p != nil; p = p.Parent {
+					l := binary.BigEndian.Uint32(b[p.Off+4:])
+					binary.BigEndian.PutUint32(b[p.Off+4:], l-uint32(to-from))
+				}
+				out = append(out, decInput{typ: in.typ, data: b, origin: "cut-tail"})
+			}
+		}
+	}
+	return out
 }
 
 // enumFamily: every Enumeration and Integer item of a few well-formed messages set, one at a time, to EVERY value 0..0x60 and to
@@ -330,7 +368,11 @@ func runC03(r *Result, d *drv.Driver, tier string, seed int64, replay string) {
 				}
 			}
 		}
+		var accepted []decInput
 		decodeCorrespondence(r, d, g, inputs, func(in decInput, o decOut, model string) {
+			if o.class == "ok" && in.origin != "valid" && len(accepted) < 20000 {
+				accepted = append(accepted, in)
+			}
 			switch o.class {
 			case "panic":
 				r.find(Finding{Kind: "violation", What: "Decode panicked", Input: map[string]string{"type": in.typ, "bytes": hx(in.data)}, Expect: "ok|eof|err", Actual: "panic: " + o.perr})
@@ -345,6 +387,21 @@ func runC03(r *Result, d *drv.Driver, tier string, seed int64, replay string) {
 				r.find(Finding{Kind: "violation", What: "Decode consumed bytes beyond the outermost item's declared end", Input: map[string]string{"type": in.typ, "bytes": hx(in.data)}, Expect: fmt.Sprintf("<= %d", limit), Actual: fmt.Sprint(o.pulled)})
 			}
 		})
+		// "nil with a populated value": whatever Decode accepts (returns nil for) among the mutated inputs must denote a value of
+		// the target type - every required item present - by the independent reader of the schema (`spec`, Lean)
+		var sl []string
+		for _, in := range accepted {
+			sl = append(sl, fmt.Sprintf("spec %s %s", in.typ, hx(in.data)))
+		}
+		if reps, err := d.AskAll(sl); err == nil {
+			for i, in := range accepted {
+				r.Stats["accepted-mutants-judged"]++
+				if !strings.HasPrefix(reps[i], "ok ") {
+					r.find(Finding{Kind: "violation", What: "Decode returned nil for bytes that do not denote a value of the target type (required items missing or out of place: nothing populated for them)",
+						Input: map[string]string{"op": "spec", "type": in.typ, "bytes": hx(in.data), "origin": in.origin}, Expect: reps[i], Actual: "ok"})
+				}
+			}
+		}
 		r.mergeStats("gen:", map[string]int{"dyn:ptr": g.Stats["dyn:ptr"], "dyn:val": g.Stats["dyn:val"], "dyn:prim": g.Stats["dyn:prim"]})
 	}
 }
@@ -465,7 +522,11 @@ func runC01(r *Result, d *drv.Driver, tier string, seed int64, replay string) {
 			ok              bool
 		}
 		rts := make([]rt, len(cs))
+		srcs := make([]string, len(cs))
 		for i, c := range cs {
+			// the value as it is handed to Encode (rendered BEFORE the call: an Encode that writes into its argument must not
+			// get to define what "v" was)
+			srcs[i] = render.Struct(c.val.Interface())
 			enc, written, _ := realEncode(c.top)
 			rts[i].enc = enc
 			lines = append(lines, "enctop "+c.line)
@@ -506,7 +567,7 @@ func runC01(r *Result, d *drv.Driver, tier string, seed int64, replay string) {
 			if replies[2*i+1] != x.dec {
 				r.find(Finding{Kind: "disagreement", What: "decode model differs from real Decode on a valid encoding of " + c.typ, Input: map[string]string{"op": "dec", "type": c.typ, "bytes": x.enc[3:]}, Expect: replies[2*i+1], Actual: x.dec})
 			}
-			src := render.Struct(c.val.Interface())
+			src := srcs[i]
 			want := fmt.Sprintf("ok %d %s", len(x.enc[3:])/2, normTokens(src))
 			if x.enc == "ok -" {
 				want = "ok 0 " + normTokens(src)
